@@ -82,8 +82,12 @@ func (r *Registry) Add(soyfile *ast.SoyFileNode) error {
 		tn.Body.Nodes = tn.Body.Nodes[len(headerParams):]
 
 		r.Templates = append(r.Templates, Template{sdn, tn, ns})
-		r.sourceByTemplateName[tn.Name] = soyfile.Text
-		r.fileByTemplateName[tn.Name] = soyfile.Name
+		// lookups by name return the first definition of a template: positions
+		// are computed against that definition's file, not a later duplicate's.
+		if _, ok := r.fileByTemplateName[tn.Name]; !ok {
+			r.sourceByTemplateName[tn.Name] = soyfile.Text
+			r.fileByTemplateName[tn.Name] = soyfile.Name
+		}
 	}
 	return nil
 }
